@@ -630,11 +630,20 @@ impl Translator {
         mono: &MonomorphEnv,
         st: &mut TranslatorState,
     ) {
-        let is_qualifier = matches!(&*receiver_expr.kind, ExprKind::Variable(_))
-            && matches!(
-                self.statics.resolution_map.get(&receiver_expr.id),
-                Some(Declaration::Struct(_) | Declaration::BuiltinType(BuiltinType::Channel))
-            );
+        // a type, interface or namespace, possibly itself qualified by a namespace (`ns.Color`)
+        let is_qualifier = matches!(
+            &*receiver_expr.kind,
+            ExprKind::Variable(_) | ExprKind::MemberAccess(..)
+        ) && matches!(
+            self.statics.resolution_map.get(&receiver_expr.id),
+            Some(
+                Declaration::Struct(_)
+                    | Declaration::Enum(_)
+                    | Declaration::InterfaceDef(_)
+                    | Declaration::Namespace(..)
+                    | Declaration::BuiltinType(BuiltinType::Channel | BuiltinType::Array)
+            )
+        );
         if !is_qualifier {
             self.translate_expr(receiver_expr, offset_table, mono, st);
         }
@@ -1060,6 +1069,12 @@ impl Translator {
                 {
                     // member function
                     self.translate_declaration(decl, field_name.node(), offset_table, mono, st);
+                } else if let Some(Declaration::Namespace(..)) =
+                    self.statics.resolution_map.get(&accessed.id)
+                    && let Some(decl) = self.statics.resolution_map.get(&field_name.id)
+                {
+                    // a name qualified by a namespace stands for what it declares: `ns.f`
+                    self.translate_declaration(decl, expr.node(), offset_table, mono, st);
                 } else {
                     let expr_ty = self.get_ty(mono, expr.node()).unwrap();
                     if expr_ty != SolvedType::Void {
